@@ -498,9 +498,11 @@ var alphabets = map[string][]byte{
 	"flip":   {0x61, 0x60, 0x63, 0x65, 0x69, 0x71, 0x41, 0x21, 0xe1},
 	"bytes":  {0x00, 0x7f, 0x80, 0xff, 'a', '*'},
 	"abstar": []byte("ab*"),
+	"a0bc":   {0x00, 'a', 'b', 'c'},
+	"star":   {'*', '+', 'a'},
 }
 
-var alphabetNames = []string{"ab", "bc", "ac", "abcd", "0001", "7fff", "8000", "flip", "bytes", "abstar"}
+var alphabetNames = []string{"ab", "bc", "ac", "abcd", "0001", "7fff", "8000", "flip", "bytes", "abstar", "a0bc", "star"}
 
 type gen struct {
 	r      *hx.Rand
@@ -736,6 +738,15 @@ func genOps(r *hx.Rand, alpha string, n int, clash bool) []string {
 	if alpha == "ab" {
 		g.maxLen = 5
 	}
+	if r.Chance(1, 3) { // the first key is the longest
+		b := make([]byte, g.maxLen+2)
+		for i := range b {
+			b[i] = hx.Pick(r, g.al)
+		}
+		g.emit("put %s %d", enc(string(b)), r.Intn(100))
+		g.held.put(string(b), 0)
+		g.emit("dump")
+	}
 	for len(g.ops) < n {
 		switch x := r.Intn(100); {
 		case x < 40:
@@ -849,7 +860,16 @@ func orders(xs []string, k int, f func([]string)) {
 }
 
 // letter pairs whose members differ in exactly one bit, one pair per bit position, plus {a,b}
-var pairs = [][2]byte{{'b', 'c'}, {'a', 'c'}, {'a', 'e'}, {'a', 'i'}, {'a', 'q'}, {'A', 'a'}, {'!', 'a'}, {0x7f, 0xff}, {'a', 'b'}, {0x01, 0x02}}
+var pairs = [][2]byte{{'b', 'c'}, {'a', 'c'}, {'a', 'e'}, {'a', 'i'}, {'a', 'q'}, {'A', 'a'}, {'!', 'a'}, {0x7f, 0xff}, {'a', 'b'}, {0x01, 0x02},
+	{'*', 'a'}, {'*', '+'}, {0x00, 'a'}}
+
+// explicit universes: keys with an interior 0x00 below a shorter key, keys with literal '*' bytes, a long first key
+var universes = [][]string{
+	{"a", "a\x00b", "a\x00c", "a\x00", "ab"},
+	{"a", "a\x00\x00b", "a\x00", "a\x00b", "b"},
+	{"*", "a", "*a", "a*", "**", "+"},
+	{"abcab", "ab", "abc", "a", "abcabc"},
+}
 
 func Main(run *hx.Run) {
 	run.Stats.Rule = Rule
@@ -884,6 +904,39 @@ func Main(run *hx.Run) {
 						ops = append(ops, fmt.Sprintf("put %s %d", enc(key), i+1))
 					}
 					both(run, fmt.Sprintf("alpha=%02x%02x stream=orders", pr[0], pr[1]), append(ops, bat...))
+				})
+			}
+		}
+		for ui, u := range universes {
+			letters := map[byte]bool{}
+			for _, k := range u {
+				for i := 0; i < len(k); i++ {
+					letters[k[i]] = true
+				}
+			}
+			g := &gen{r: run.R.Fork(fmt.Sprintf("universe%d", ui)), held: newOracle()}
+			for c := range letters {
+				g.al = append(g.al, c)
+			}
+			sort.Slice(g.al, func(i, j int) bool { return g.al[i] < g.al[j] })
+			for _, k := range u {
+				g.held.put(k, 0)
+			}
+			g.emit("dump")
+			g.emit("all")
+			g.denseBattery(len(u))
+			bat := g.ops
+			maxU := maxSet + 1
+			if maxU > len(u) {
+				maxU = len(u)
+			}
+			for k := 1; k <= maxU; k++ {
+				orders(u, k, func(keys []string) {
+					var ops []string
+					for i, key := range keys {
+						ops = append(ops, fmt.Sprintf("put %s %d", enc(key), i+1))
+					}
+					both(run, fmt.Sprintf("universe=%d stream=orders", ui), append(ops, bat...))
 				})
 			}
 		}
